@@ -748,7 +748,64 @@ func parsePool() ([]*path.Path, []bool) {
 // c19PoolKind: what the first Parse of each pool text reported about it.
 var c19PoolKind []string
 
+// c19StuckInLibrary looks through a dump of all goroutine stacks for a
+// goroutine that the Go runtime reports as blocked on a lock, a channel or a
+// select for a minute or more (the runtime adds ", N minutes" to the state)
+// and whose innermost frame outside the runtime and package sync is library
+// code. Calls of the workload take micro- to milliseconds; a minute inside a
+// lock that the library itself took is a call that does not return.
+func c19StuckInLibrary(dump string) string {
+	for _, g := range strings.Split(dump, "\n\n") {
+		nl := strings.IndexByte(g, '\n')
+		if nl < 0 {
+			continue
+		}
+		head := g[:nl]
+		if !strings.Contains(head, " minutes]") && !strings.Contains(head, " minute]") {
+			continue
+		}
+		blocked := false
+		for _, st := range []string{"[sync.", "[semacquire", "[chan receive", "[chan send", "[select"} {
+			if strings.Contains(head, st) {
+				blocked = true
+			}
+		}
+		if !blocked {
+			continue
+		}
+		for _, ln := range strings.Split(g[nl+1:], "\n") {
+			if strings.HasPrefix(ln, "\t") || strings.HasPrefix(ln, "created by") {
+				continue
+			}
+			if strings.HasPrefix(ln, "runtime.") || strings.HasPrefix(ln, "sync.") || strings.HasPrefix(ln, "internal/") || strings.HasPrefix(ln, "sync/") {
+				continue
+			}
+			if strings.HasPrefix(ln, "github.com/theory/sqljson/") {
+				if len(g) > 1800 {
+					g = g[:1800]
+				}
+				return g
+			}
+			break
+		}
+	}
+	return ""
+}
+
 func runC19(c *h.Ctx) {
+	// calls that never return: see c19StuckInLibrary
+	go func() {
+		buf := make([]byte, 8<<20)
+		for {
+			time.Sleep(15 * time.Second)
+			n := runtime.Stack(buf, true)
+			if g := c19StuckInLibrary(string(buf[:n])); g != "" {
+				c.Violate("concurrent-differs", h.F("kind", "never-returns"), "a call has been blocked inside the library for a minute or more while other calls were in flight:\n"+g, h.Case{Kind: "blocked"})
+				_ = c.Finish("")
+				panic("blocked call detected; shard result written")
+			}
+		}
+	}()
 	// shard parameters
 	type cfg struct{ n, m, procs, yield int }
 	cfgs := []cfg{{16, 1200, 16, 7}, {16, 1200, 4, 3}, {64, 400, 16, 0}, {2, 6000, 2, 5}, {16, 1000, 1, 2}, {32, 800, 8, 11},
